@@ -153,6 +153,19 @@ var checkC17 = register("C17/report", func(c repCase) string {
 	} else {
 		rep = buildReport(o, level, report.WithOptionsLanguage(tag))
 	}
+	// a report must own its content: building further reports (other vector, same level and
+	// language) before the fields are read must not change it
+	for _, dv := range []string{"CVSS:3.0/AV:P/AC:H/PR:H/UI:R/S:C/C:L/I:N/A:L/E:U/RL:O/RC:U/CR:L/IR:H/AR:M/MAV:L/MAC:H/MPR:L/MUI:N/MS:U/MC:L/MI:H/MA:N", "CVSS:3.1/AV:L/AC:L/PR:L/UI:N/S:U/C:N/I:N/A:H/E:P/RL:W/RC:R/MAV:A/MS:C"} {
+		if ref, ok := spec.AcceptV3(dv, spec.Environmental); ok {
+			if d, err := decode3(level, spec.ProjectV3(ref, level).String(), false); err == nil {
+				if c.NoOpt {
+					buildReport(d, level)
+				} else {
+					buildReport(d, level, report.WithOptionsLanguage(tag))
+				}
+			}
+		}
+	}
 	nameTag := tag
 	if tag != language.English && tag != language.Japanese {
 		nameTag = language.English // any other language: exactly the English report
